@@ -20,7 +20,9 @@ import (
 // sub-cluster and backend for every probe of a fixed probe set.
 
 type c14Case struct {
-	Docs   [nFiles]obj
+	Docs      [nFiles]obj
+	Hist      [2]obj // gslb, cluster_table loaded before the final ones are reloaded over them
+	HistKinds [3]int
 	Shapes []string
 	Probes []c14Probe
 }
@@ -45,10 +47,17 @@ var c14ClusterNames = []string{"k1", "k2", "k3"}
 // without its ambiguous shape.
 type c14Draws struct {
 	NProd   int
-	Amb     int // -1 none, 0..4 ambiguous shape
+	Amb     int // -1 none, 0..5 ambiguous shape
 	HostIdx int
 	Mask    uint64
-	Benign  [4]bool // exact dup, duplicate backend, many sub-clusters, basic-rule host case dup
+	Benign  [5]bool // exact dup, duplicate backend, many sub-clusters, basic-rule host case dup, host with :port
+	// gslb weights: Single[i] = exactly one sub-cluster of cluster i has a positive weight (the others 0)
+	Single  [3]bool
+	KeepIdx [3]int
+	// history: the gslb/cluster_table files loaded BEFORE the final ones are reloaded over them
+	HistKind [3]int // 0 same members, other weights; 1 some members missing; 2 an extra member; 3 cluster missing
+	HistDrop [3]int // bit j: sub-cluster j missing in the history (kind 1)
+	HistW    [3][6]int
 	Default bool
 	BDup    int
 	NSub    [3]int
@@ -60,13 +69,15 @@ type c14Draws struct {
 func drawC14(rt *rapid.T) c14Draws {
 	var d c14Draws
 	d.NProd = rapid.IntRange(2, 3).Draw(rt, "nprod")
-	d.Amb = rapid.IntRange(-1, 4).Draw(rt, "ambiguous")
+	d.Amb = rapid.IntRange(-1, 5).Draw(rt, "ambiguous")
 	d.HostIdx = rapid.IntRange(0, 2).Draw(rt, "hostidx")
 	d.Mask = rapid.Uint64().Draw(rt, "casemask")
 	for i := range d.Benign {
 		// the two shapes that are documented load errors (same host twice, clashing basic rules) are kept rare
 		if i == 0 || i == 3 {
 			d.Benign[i] = rapid.IntRange(0, 11).Draw(rt, "benign") == 7
+		} else if i == 4 {
+			d.Benign[i] = rapid.IntRange(0, 3).Draw(rt, "benign") == 2
 		} else {
 			d.Benign[i] = rapid.IntRange(0, 2).Draw(rt, "benign") == 1
 		}
@@ -74,9 +85,14 @@ func drawC14(rt *rapid.T) c14Draws {
 	d.Default = rapid.Bool().Draw(rt, "default")
 	d.BDup = rapid.IntRange(0, 1).Draw(rt, "bdup")
 	for i := 0; i < 3; i++ {
+		d.Single[i] = rapid.IntRange(0, 2).Draw(rt, "single") == 1
+		d.KeepIdx[i] = rapid.IntRange(0, 5).Draw(rt, "keepidx")
+		d.HistKind[i] = []int{1, 0, 1, 2, 1, 3}[rapid.IntRange(0, 5).Draw(rt, "histkind")]
+		d.HistDrop[i] = rapid.IntRange(1, 62).Draw(rt, "histdrop")
 		d.NSub[i] = rapid.IntRange(3, 6).Draw(rt, "nsub")
 		for j := 0; j < 6; j++ {
 			d.GW[i][j] = rapid.IntRange(1, 50).Draw(rt, "gw")
+			d.HistW[i][j] = rapid.IntRange(0, 50).Draw(rt, "histw")
 			d.NB[i][j] = rapid.IntRange(1, 3).Draw(rt, "nb")
 			for x := 0; x < 4; x++ {
 				d.BW[i][j][x] = rapid.IntRange(1, 5).Draw(rt, "bw")
@@ -86,7 +102,7 @@ func drawC14(rt *rapid.T) c14Draws {
 	return d
 }
 
-var c14AmbNames = []string{"host-case-dup-two-products", "host-case-dup-one-product", "tag-under-two-products", "vip-under-two-products", "vip-two-spellings-two-products"}
+var c14AmbNames = []string{"host-case-dup-two-products", "host-case-dup-one-product", "tag-under-two-products", "vip-under-two-products", "vip-two-spellings-two-products", "host-trailing-dot-dup-two-products"}
 
 func buildC14(d c14Draws, withAmb bool) c14Case {
 	var c c14Case
@@ -139,6 +155,8 @@ func buildC14(d c14Draws, withAmb bool) c14Case {
 		b.vips = append(b.vips, a.vips[0])
 	case 4: // a VIP listed under two products in two spellings of the same address
 		b.vips = append(b.vips, "2001:DB8:0:0::1")
+	case 5: // a host of product a listed again under product b as a fully qualified name (trailing dot)
+		b.hosts = append(b.hosts, a.hosts[d.HostIdx]+".")
 	}
 	if amb >= 0 {
 		shape(c14AmbNames[amb])
@@ -155,6 +173,11 @@ func buildC14(d c14Draws, withAmb bool) c14Case {
 	}
 	if d.Benign[3] {
 		shape("basic-rule-host-case-dup")
+	}
+	if d.Benign[4] {
+		// a host entry carrying an explicit port: whatever it means, it must mean the same on every load
+		b.hosts = append(b.hosts, caseVariant(a.hosts[d.HostIdx])+":8443")
+		shape("host-with-port-two-products")
 	}
 	hasShape := func(s string) bool {
 		for _, x := range c.Shapes {
@@ -197,19 +220,25 @@ func buildC14(d c14Draws, withAmb bool) c14Case {
 	}
 	c.Docs[fCluster] = obj{{"Version", "v1"}, {"Config", cc}}
 	gc, ct := obj{}, obj{}
+	hgc, hct := obj{}, obj{} // history
 	for i, k := range c14ClusterNames {
 		ns := 2
 		if hasShape("many-subclusters") {
 			ns = d.NSub[i]
 		}
 		g, t := obj{}, obj{}
+		hg, ht := obj{}, obj{}
+		if d.Single[i] && !hasShape("single-available-subcluster") {
+			shape("single-available-subcluster")
+		}
 		// sub-cluster names in a non-sorted file order
 		for j := 0; j < ns; j++ {
 			sub := fmt.Sprintf("%c-sub.%s", 'a'+byte((j*5+i)%7), k)
-			if _, dup := g.get(sub); dup {
-				continue
+			w := d.GW[i][j]
+			if d.Single[i] && j != d.KeepIdx[i]%ns {
+				w = 0
 			}
-			g = append(g, kv{sub, d.GW[i][j]})
+			g = append(g, kv{sub, w})
 			var bl []any
 			for x := 0; x < d.NB[i][j]; x++ {
 				bl = append(bl, obj{{"Addr", fmt.Sprintf("10.%d.%d.%d", i, j, x)}, {"Name", fmt.Sprintf("b-%d-%d-%d", i, j, x)}, {"Port", 8000}, {"Weight", d.BW[i][j][x]}})
@@ -218,12 +247,44 @@ func buildC14(d c14Draws, withAmb bool) c14Case {
 				bl = append(bl, obj{{"Addr", fmt.Sprintf("10.%d.%d.0", i, j)}, {"Name", fmt.Sprintf("b-%d-%d-dup", i, j)}, {"Port", 8000}, {"Weight", d.BW[i][j][3]}})
 			}
 			t = append(t, kv{sub, bl})
+			// history of this sub-cluster
+			missing := d.HistKind[i] == 1 && d.HistDrop[i]&(1<<uint(j)) != 0
+			if !missing {
+				hw := d.HistW[i][j]
+				if d.HistKind[i] != 0 {
+					hw = w
+				}
+				hg = append(hg, kv{sub, hw})
+				ht = append(ht, kv{sub, bl})
+			}
+		}
+		if d.HistKind[i] == 2 || len(hg) == 0 {
+			sub := fmt.Sprintf("d-old.%s", k) // sorts into the middle of the list
+			hg = append(hg, kv{sub, 30})
+			ht = append(ht, kv{sub, []any{obj{{"Addr", fmt.Sprintf("10.%d.99.1", i)}, {"Name", fmt.Sprintf("b-%d-old", i)}, {"Port", 8000}, {"Weight", 1}}}})
+		}
+		// a history with no positive weight cannot be loaded; give the last member one
+		pos := false
+		for _, e := range hg {
+			if e.V.(int) > 0 {
+				pos = true
+			}
+		}
+		if !pos {
+			hg[len(hg)-1].V = 7
 		}
 		gc = append(gc, kv{k, g})
 		ct = append(ct, kv{k, t})
+		if d.HistKind[i] != 3 {
+			hgc = append(hgc, kv{k, hg})
+			hct = append(hct, kv{k, ht})
+		}
 	}
-	c.Docs[fGslb] = obj{{"Clusters", gc}, {"Hostname", "h"}, {"Ts", "1"}}
-	c.Docs[fCTable] = obj{{"Config", ct}, {"Version", "v1"}}
+	c.Docs[fGslb] = obj{{"Clusters", gc}, {"Hostname", "h"}, {"Ts", "2"}}
+	c.Docs[fCTable] = obj{{"Config", ct}, {"Version", "v2"}}
+	c.Hist[0] = obj{{"Clusters", hgc}, {"Hostname", "h"}, {"Ts", "1"}}
+	c.Hist[1] = obj{{"Config", hct}, {"Version", "v1"}}
+	c.HistKinds = d.HistKind
 	// probes: fixed per case
 	for _, p := range ps {
 		probeHosts = append(probeHosts, p.dom, "www."+p.dom, "m."+p.dom)
@@ -243,7 +304,7 @@ func buildC14(d c14Draws, withAmb bool) c14Case {
 }
 
 // c14Interpret loads the files once and returns "REJECT" or the decisions for all probes.
-func c14Interpret(dir string, paths [nFiles]string, probes []c14Probe) (string, *panicInfo) {
+func c14Interpret(dir string, paths [nFiles]string, probes []c14Probe, hist *[2]string) (string, *panicInfo) {
 	var out string
 	pi := try(func() {
 		sdc, err := bfe_route.LoadServerDataConf(paths[fHost], paths[fVip], paths[fRoute], paths[fCluster])
@@ -252,11 +313,32 @@ func c14Interpret(dir string, paths [nFiles]string, probes []c14Probe) (string, 
 			return
 		}
 		bt := bfe_balance.NewBalTable(nil)
-		if err := bt.Init(paths[fGslb], paths[fCTable]); err != nil {
-			out = "REJECT(bal-table)"
-			return
+		if hist == nil {
+			if err := bt.Init(paths[fGslb], paths[fCTable]); err != nil {
+				out = "REJECT(bal-table)"
+				return
+			}
+		} else {
+			// start with the history files, then reload the final files over them the way
+			// BfeServer.gslbDataConfReload does
+			if err := bt.Init(hist[0], hist[1]); err != nil {
+				out = "REJECT(history)"
+				return
+			}
+			bt.SetGslbBasic(sdc.ClusterTable)
+			bt.SetSlowStart(sdc.ClusterTable)
+			gslbConf, backendConf, err := bt.BalTableConfLoad(paths[fGslb], paths[fCTable])
+			if err != nil {
+				out = "REJECT(bal-table)"
+				return
+			}
+			if err := bt.BalTableReload(gslbConf, backendConf); err != nil {
+				out = "REJECT(bal-table)"
+				return
+			}
 		}
 		bt.SetGslbBasic(sdc.ClusterTable)
+		bt.SetSlowStart(sdc.ClusterTable)
 		var sb strings.Builder
 		for _, p := range probes {
 			var vip net.IP
@@ -326,7 +408,7 @@ func c14Check(tb ev.TB, rec *ev.Rec, dir string, c *c14Case, nload int, ambiguou
 	for i, o := range c.Docs {
 		w[fileNames[i]] = o
 	}
-	first, pi := c14Interpret(dir, paths, c.Probes)
+	first, pi := c14Interpret(dir, paths, c.Probes, nil)
 	if pi != nil {
 		rec.Case(fpv.String(), len(c.Shapes) > 0, cl...)
 		rec.Fail(tb, "panic-"+pi.Site, w, "load/lookup panicked: %s", pi.Val)
@@ -339,17 +421,14 @@ func c14Check(tb ev.TB, rec *ev.Rec, dir string, c *c14Case, nload int, ambiguou
 	}
 	rec.Case(fpv.String(), len(c.Shapes) > 0, cl...)
 	for n := 1; n < nload; n++ {
-		again, pi := c14Interpret(dir, paths, c.Probes)
+		again, pi := c14Interpret(dir, paths, c.Probes, nil)
 		if pi != nil {
 			rec.Fail(tb, "panic-"+pi.Site, w, "load/lookup panicked: %s", pi.Val)
 			return
 		}
 		if again != first {
 			// key: the suspicious shapes present (sorted), or which stage differs when there is none
-			key := "order-dependent-no-ambiguous-shape"
-			if ambiguous {
-				key = "order-dependent-" + c.Shapes[0]
-			}
+			key := c14Key(c, ambiguous)
 			w["load_1"], w["load_n"], w["n"] = first, again, n+1
 			if !rec.Known(key) {
 				// the code under test is what is nondeterministic here, so rapid may be unable to
@@ -360,6 +439,88 @@ func c14Check(tb ev.TB, rec *ev.Rec, dir string, c *c14Case, nload int, ambiguou
 			return
 		}
 	}
+	// reload count: the same final files reached through a reload over a different history must be
+	// interpreted like a fresh load (no request is served in between, so no balancing state differs)
+	if ambiguous || strings.HasPrefix(first, "REJECT") {
+		return
+	}
+	hist := [2]string{writeFile(dir, "hist-gslb.data", mustJSON(c.Hist[0])), writeFile(dir, "hist-cluster_table.data", mustJSON(c.Hist[1]))}
+	firstReloaded := ""
+	for n := 0; n < nreload; n++ {
+		again, pi := c14Interpret(dir, paths, c.Probes, &hist)
+		if pi != nil {
+			rec.Fail(tb, "panic-"+pi.Site, w, "load/reload/lookup panicked: %s", pi.Val)
+			return
+		}
+		if again == "REJECT(history)" {
+			rec.Class("history-rejected")
+			return
+		}
+		if n == 0 {
+			rec.Class("reload-over-history")
+			for i, k := range c.HistKinds {
+				rec.Class(fmt.Sprintf("history-kind-%d", k))
+				_ = i
+			}
+		}
+		// (i) reload count: product, cluster and sub-cluster must be those of a fresh load. The backend inside
+		// the sub-cluster is not compared with the fresh load: its round-robin position is run-time state.
+		if stripBackend(again) != stripBackend(first) {
+			key := "reload-differs-from-fresh-load"
+			w["fresh"], w["reloaded"], w["history_gslb"], w["history_cluster_table"] = first, again, c.Hist[0], c.Hist[1]
+			d := firstDiff(stripBackend(first), stripBackend(again))
+			if !rec.Known(key) {
+				fmt.Printf("VIOLATION-CANDIDATE property=C14 key=%s: %s\n", key, d)
+			}
+			rec.Fail(tb, key, w, "the final files reloaded over a history (gslb %s) are interpreted differently from a fresh load of the same files: %s", string(mustJSON(c.Hist[0])), d)
+			return
+		}
+		// (ii) map iteration order: the same history + reload, repeated, must give the same decisions, backend included
+		if n == 0 {
+			firstReloaded = again
+		} else if again != firstReloaded {
+			key := "reload-order-dependent-backend"
+			w["reloaded_1"], w["reloaded_n"], w["history_gslb"], w["history_cluster_table"] = firstReloaded, again, c.Hist[0], c.Hist[1]
+			d := firstDiff(firstReloaded, again)
+			if !rec.Known(key) {
+				fmt.Printf("VIOLATION-CANDIDATE property=C14 key=%s: %s\n", key, d)
+			}
+			if rec.Fail(tb, key, w, "the same history and reload repeated (#%d vs #1) give different decisions: %s", n+1, d) {
+				return
+			}
+			break
+		}
+	}
+}
+
+// stripBackend removes the backend part of every line of a load signature.
+func stripBackend(sig string) string {
+	lines := strings.Split(sig, "\n")
+	for i, l := range lines {
+		if j := strings.Index(l, " backend="); j >= 0 {
+			lines[i] = l[:j]
+		}
+	}
+	return strings.Join(lines, "\n")
+}
+
+const nreload = 4
+
+// c14Key names a discrepancy by the ambiguous shape of the case, else by its other shapes.
+func c14Key(c *c14Case, ambiguous bool) string {
+	if ambiguous {
+		return "order-dependent-" + c.Shapes[0]
+	}
+	var l []string
+	for _, s := range c.Shapes {
+		if s == "host-exact-dup" || s == "basic-rule-host-case-dup" || s == "host-with-port-two-products" || s == "duplicate-backend" {
+			l = append(l, s)
+		}
+	}
+	if len(l) == 0 {
+		return "order-dependent-plain"
+	}
+	return "order-dependent-" + strings.Join(l, "+")
 }
 
 func TestC14(t *testing.T) {
